@@ -12,8 +12,8 @@
           0/1; panel types / health names; capability lists in any order with unknown names
           ignored; address lists with non-empty elements without surrounding white space);
           SysStat with any subset, order and repetition of the 20 fields; registers.
-          Float fields: canonical decimals with one decimal and at most 4 integer digits
-          (temperatures, |x| < 10000.0) or two decimals and at most 2 integer digits (voltage,
+          Float fields: canonical decimals with one decimal and at most 3 integer digits
+          (temperatures, |x| < 1000.0) or two decimals and at most 2 integer digits (voltage,
           |x| < 100.00) - stated in the reader ([read_dec]) and proved by a finite sweep.
           (The search oracle is wider than these theorems: Spec/SysExactOut.v also judges
           numerals of any length at float32 precision.)
